@@ -128,14 +128,29 @@ Definition input_values (a0 a1 factor offset : Q) (src : list Q) (positions : li
   map (to_phys (in_scale0 a0 a1 factor offset) (in_scale1 a0 a1 factor offset))
       (pick 0%Q (map (to_norm a0 a1) src) positions).
 
+(* array-valued ref / ref0 on the source: a0s[p] = ref0[p], a1s[p] = ref[p] - ref0[p] per source entry
+   (a scalar is the constant list).  _compute_root_scale_factors indexes both with the flat source
+   positions of the connection (ref[src_indices], ref0[src_indices]), so entry k of the input is
+   scaled with the factors of source entry P[k]. *)
+Definition in_scale0s (a0s a1s : list Q) (factor offset : Q) (P : list Z) : list Q :=
+  map (fun p => in_scale0 (nth (Z.to_nat p) a0s 0%Q) (nth (Z.to_nat p) a1s 1%Q) factor offset) P.
+Definition in_scale1s (a0s a1s : list Q) (factor offset : Q) (P : list Z) : list Q :=
+  map (fun p => in_scale1 (nth (Z.to_nat p) a0s 0%Q) (nth (Z.to_nat p) a1s 1%Q) factor offset) P.
+
+Definition input_values_v (a0s a1s : list Q) (factor offset : Q) (src : list Q) (P : list Z) : list Q :=
+  map (fun p => let i := Z.to_nat p in
+                let a0 := nth i a0s 0%Q in let a1 := nth i a1s 1%Q in
+                to_phys (in_scale0 a0 a1 factor offset) (in_scale1 a0 a1 factor offset)
+                        (to_norm a0 a1 (nth i src 0%Q))) P.
+
 (* ------------------------------------------------------------------ what the harness compares *)
 
 Definition v_opos (r : option (list Z)) : val := match r with None => VE 1 | Some p => vzs p end.
 
 (* per connected input: [flat positions; values by the reference semantics converted;
-   values by the code path; (scale0, scale1)] *)
+   values by the code path; scale0 array; scale1 array] *)
 Definition run_input (shape : list Z) (chain : list level) (src : list Q)
-           (a0 a1 factor offset : Q) : val :=
+           (a0s a1s : list Q) (factor offset : Q) : val :=
   VL [v_opos (om_positions shape chain);
       match src_through_chain 0%Q src shape chain with
       | None => VE 1
@@ -143,6 +158,9 @@ Definition run_input (shape : list Z) (chain : list level) (src : list Q)
       end;
       match om_positions shape chain with
       | None => VE 1
-      | Some p => vqs (input_values a0 a1 factor offset src p)
+      | Some p => vqs (input_values_v a0s a1s factor offset src p)
       end;
-      VL [VQ (in_scale0 a0 a1 factor offset); VQ (in_scale1 a0 a1 factor offset)]].
+      match om_positions shape chain with
+      | None => VE 1
+      | Some p => VL [vqs (in_scale0s a0s a1s factor offset p); vqs (in_scale1s a0s a1s factor offset p)]
+      end].
